@@ -64,8 +64,13 @@ def apply_patch(diff_text: str) -> dict:
                     continue
             pos = (start - 1 if start > 0 else 0) + offset
             if lines[pos:pos + len(old_seg)] != old_seg:
-                # tolerate blank context lines stripped of their space
-                raise ValueError(f"hunk does not apply to {rel} at line {start}")
+                # the file may have moved since the patch was taken (a later fix: commit): the same lines, nearest to where they were
+                cands = [k for k in range(0, len(lines) - len(old_seg) + 1) if lines[k:k + len(old_seg)] == old_seg] if old_seg else []
+                if not cands:
+                    raise ValueError(f"hunk does not apply to {rel} at line {start}")
+                new_pos = min(cands, key=lambda k: abs(k - pos))
+                offset += new_pos - pos
+                pos = new_pos
             lines[pos:pos + len(old_seg)] = new_seg
             offset += len(new_seg) - len(old_seg)
         out[rel] = "\n".join(lines)
